@@ -30,10 +30,10 @@ def command(name) -> click.Command:
 
 # ---- world specs -------------------------------------------------------------------------------------------------
 def gen_spec(rng, nfiles=None):
-    ng = rng.randint(1, 3)
+    ng = rng.choice([1, 2, 3, 3, 4, 4])
     groups = [f"G{i}" for i in range(1, ng + 1)]
     nodes = []
-    for i in range(1, rng.randint(2, 4) + 1):
+    for i in range(1, rng.randint(2, 5) + 1):
         nodes.append({"name": f"N{i}", "group": rng.choice(groups), "stype": rng.choice("AAFFT"), "host": rng.choice(["h1", "h2"]), "active": rng.random() < 0.8})
     acqs = [f"acq{i}" for i in range(1, rng.randint(1, 3) + 1)]
     files = []
